@@ -280,6 +280,7 @@ type BytecodeCompiler struct {
 	additionalAbortChecks bool
 	hasDefer              bool
 	mode                  bytecodeCompilerMode
+	lateCalls             []*bytecodeCall // calls registered for late optimisation whose offsets point into this bytecode
 }
 
 // Instantiate a NewBytecodeCompiler Compiler instance.
@@ -690,6 +691,11 @@ func (c *BytecodeCompiler) optimiseCalls() {
 
 		c.patchOptimisedCall(call, method.Body)
 	}
+}
+
+func (c *BytecodeCompiler) registerLateCall(call *bytecodeCall) {
+	c.lateCalls = append(c.lateCalls, call)
+	c.globalData.callsToOptimise.Push(call)
 }
 
 func (c *BytecodeCompiler) patchOptimisedCall(call *bytecodeCall, method value.Method) {
@@ -1137,6 +1143,12 @@ func (c *BytecodeCompiler) prepLocals() {
 	for _, id := range c.offsetValueIds {
 		currentValue := c.bytecode.Values[id].MustSmallInt()
 		c.bytecode.Values[id] = (currentValue + value.SmallInt(len(newInstructions))).ToValue()
+	}
+
+	// calls registered for late optimisation store an absolute offset
+	// into this bytecode, it has to be shifted as well
+	for _, call := range c.lateCalls {
+		call.bytecodeOffset += len(newInstructions)
 	}
 }
 
@@ -9222,7 +9234,7 @@ func (c *BytecodeCompiler) compileOptimisedCallMethod(receiverType types.Type, n
 			tailCall,
 		)
 
-		c.globalData.callsToOptimise.Push(
+		c.registerLateCall(
 			newBytecodeCall(
 				name,
 				c.bytecode,
@@ -9256,7 +9268,7 @@ func (c *BytecodeCompiler) compileOptimisedCallMethod(receiverType types.Type, n
 			tailCall,
 		)
 
-		c.globalData.callsToOptimise.Push(
+		c.registerLateCall(
 			newBytecodeCall(
 				name,
 				c.bytecode,
